@@ -142,11 +142,6 @@ async def search(ctx):
         flag_discipline(ctx, run_)
 
 
-# The strict form of the discipline (no allowance for a flagged consumer) is not what the code
-# maintains; until the driver evaluates the weak form it is only counted.
-STRICT_DISCIPLINE_IS_A_FINDING = False
-
-
 def flag_discipline(ctx, run_):
     """The hypothesis of the worklist theorems (`MetaAfter.CacheInvAfter`: every attached step that is
     not flagged `_check_after` satisfies its local equation) evaluated on the MODEL state after every
@@ -171,13 +166,13 @@ def flag_discipline(ctx, run_):
         ctx.stats.count("model-flag-discipline-states")
         if restarting:
             continue
-        if ans[2 * i + 1] != "1":
+        if ans[2 * i + 1][1:] != "1":
+            ctx.stats.count("model-strict-discipline-false")  # expected: the code maintains the weak form
+        if ans[2 * i + 1][:1] != "1":
             ctx.stats.count("model-flag-discipline-false")
-            if not STRICT_DISCIPLINE_IS_A_FINDING:
-                continue
             ctx.finding(Finding(PID, "flag-discipline:" + op,
                                 f"after '{kcorr.decode_line(ln)[:100]}' an attached step that is not flagged "
-                                f"_check_after no longer satisfies its local equation (CacheInvAfter is false)",
+                                f"_check_after neither satisfies its local equation nor has a flagged consumer (CacheInvAfterW is false)",
                                 {"requests": [kcorr.decode_line(x) for x in run_.lines[: i + 1]][-15:],
                                  "protocol_lines": list(run_.lines[: i + 1])}))
             break
